@@ -22,6 +22,8 @@ impl WherePredicatesOrBool {
     fn from_lit(lit: &Lit) -> syn::Result<Self> {
         Ok(match lit {
             Lit::Bool(lit) => Self::Bool(lit.value),
+            // `bound = "*"` is `bound(*)`
+            Lit::Str(lit) if lit.value().trim() == "*" => Self::All,
             Lit::Str(lit) => match lit.parse_with(WherePredicates::parse_terminated) {
                 Ok(where_predicates) => Self::WherePredicates(where_predicates),
                 Err(_) if lit.value().is_empty() => Self::Bool(false),
